@@ -87,6 +87,25 @@ def generate(tier, seed, work, stats):
                 [["S", ["A", "S", "A"]], ["S", ["b"]], ["A", ["B"]], ["B", ["A"]], ["B", []]]]
     for prods in directed:
         cases.append(dict(kind="fcfg", prods=[[h, "-", b, ["-"] * len(b)] for h, b in prods], family="directed-free", free=True))
+    # ambiguity between a reading that lacks the feature and one that fixes it (the same dotted rule over the same span
+    # with two feature structures): every assignment of the five variable names to the roles, so that every order of
+    # exploration of the two readings occurs
+    import itertools
+    roles = ("D", "N", "G", "P")
+    tmpl = [["S", "-", ["D", "N"], ["x", "x"]], ["D", "-", ["G"], ["-"]], ["D", "x", ["P"], ["x"]], ["G", "-", ["a"], ["-"]],
+            ["P", "sg", ["a"], ["-"]], ["N", "sg", ["b"], ["-"]], ["N", "pl", ["a"], ["-"]]]
+    for perm in itertools.permutations(("A", "B", "X", "Y")):
+        m = dict(zip(roles, perm))
+        cases.append(dict(kind="fcfg", family="directed-ambiguous-readings",
+                          prods=[[m.get(h, h), ha, [m.get(x, x) for x in b], list(ba)] for h, ha, b, ba in tmpl]))
+    # random annotated grammars beyond the exhaustive bound
+    rnd = random.Random(seed + 22)
+    for prods in c08.random_grammars(600 if tier == "quick" else 8000, seed + 23, maxp=6, maxb=2):
+        prods = [p for p in prods if all(x in ("S", "A", "B", "a", "b") for x in [p[0]] + p[1])]
+        if prods and prods[0][0] == "S":
+            cases.append(dict(kind="fcfg", family="random-annotated",
+                              prods=[[h, rnd.choice(["-", "-", "sg", "pl", "x"]), b,
+                                      [rnd.choice(["-", "x", "x", "sg", "pl"]) if y[0].isupper() else "-" for y in b]] for h, b in prods]))
     return cases
 
 
@@ -204,6 +223,8 @@ def replay(case):
     words = []
     for n in range(4):
         words.extend(itertools.product(["a", "b"], repeat=n))
+    # input tokens spelled like the variables of the grammar are ordinary (unknown) tokens
+    words += [("A",), ("S",), ("a", "A"), ("A", "b"), ("B", "a"), ("a", "B", "b")]
     ev = {"op": "fcfg_contains", "prods": prods, "vars": ["S", "A", "B", "X", "Y"], "terms": ["a", "b"], "start": "S",
           "dom": ["sg", "pl"], "L": 3, "words": [list(w) for w in words], "acc": [], "free": bool(case.get("free"))}
     acc = []
